@@ -23,7 +23,7 @@ def make_run(cfg, answer, **kw):
                      refine=cfg.get("refine", False), fresh_holder=cfg.get("holder") == "fresh",
                      other=tuple(cfg["other"]) if cfg.get("other") else None, int_bounds=cfg.get("box") == "Z",
                      constraints=int(cfg.get("constraints", 0)), discrete=int(cfg.get("discrete", 0)), probe=bool(cfg.get("probe")),
-                     start_point=bool(cfg.get("startPoint")), **kw)
+                     start_point=bool(cfg.get("startPoint")), spell=cfg.get("spell"), **kw)
 
 
 def _horizon(run, cfg):
